@@ -54,6 +54,12 @@ CONFIG = {
         "node in document order (by anchor name) is the original, wherever it stands - also beneath a matched key "
         "or beneath the value of an excluded aliased key, which the search does not enter",
         "a null document is empty: it has no places (the Processor yields no node for any path on it)",
+        "document well-formedness doc_wf (the hypothesis of C07_alias_excluded_wf_partial, from which the former "
+        "assumption shared_closed is proved): evaluated on EVERY encoded document - the extracted "
+        "same_oid_same_tree / c07_keys_leaf / merged_closed (request paths-docwf) against an independent evaluation "
+        "on the real object graph; a false same_oid_same_tree or c07_keys_leaf is reported as a broken assumption; "
+        "merged_closed is false only for a merge source that is an inline mapping first defining an anchor "
+        "(bucket merge-inlinemerge, corpus case)",
     ],
 }
 
@@ -376,7 +382,8 @@ def requests(case):
         lit = oracles.lit_table(hs + [term.term])
         if term.method is _E["REGEX"]:
             ret = oracles.re_table([(term.term, t) for h in hs for t in hay_texts(h)])
-    return ["(paths %s %s %s %s %s %s %s)" % (sx, mt, hexs(expr), sep, opts_sexp(o), lit, ret)]
+    return ["(paths %s %s %s %s %s %s %s)" % (sx, mt, hexs(expr), sep, opts_sexp(o), lit, ret),
+            "(paths-docwf %s %s)" % (sx, mt)]
 
 
 _RUNS = OrderedDict()
@@ -426,18 +433,111 @@ def observe(case):
             return ["(ok none)"]
         return ["(ok (some (%s %s %s %s)))" % ("true" if t.inverted else "false", t.method.name,
                                                hexs(t.attribute), hexs(t.term))]
+    wf = "(ok (%s))" % " ".join("true" if b else "false" for b in doc_wf_real(text, data))
     r = run_real(case)
     if r[0] == "none":
-        return ["(ok none)"]
+        return ["(ok none)", wf]
     if r[0] == "exc":
-        return [exc_line(r[1])]
+        return [exc_line(r[1]), wf]
     items = []
     for p in r[2]:
         try:
             items.append(c14.segs_line(p.escaped))
         except Exception as e:  # noqa
             items.append(exc_line(e))
-    return ["(ok (some (%s)))" % " ".join(items)]
+    return ["(ok (some (%s)))" % " ".join(items), wf]
+
+
+# ------------------------------------------------------------------ document well-formedness (doc_wf)
+_WF = {}
+
+
+def _inner_occs(x):
+    """anc_occs of the spec on the real object graph: the anchored occurrences strictly inside x, in
+    document order (a key before its value, a node before its descendants)."""
+    ga = _E["Anchors"].get_node_anchor
+    out = []
+    if is_map(x):
+        for k, v in x.items():
+            if ga(k):
+                out.append((k, True))
+            if ga(v):
+                out.append((v, False))
+            out.extend(_inner_occs(v))
+    elif is_seq(x):
+        for e in x:
+            if ga(e):
+                out.append((e, False))
+            out.extend(_inner_occs(e))
+    elif is_set(x):
+        for m in x:
+            if ga(m):
+                out.append((m, True))
+    return out
+
+
+def doc_wf_real(text, data):
+    """(same_oid_same_tree, keys_leaf, merged_closed) evaluated on the REAL loaded document, independently of
+    the model: one object = one encoded tree wherever it stands; keys / members are scalars to the encoder;
+    every merged-in entry holds only anchored objects met earlier in document order."""
+    r = _WF.get(text)
+    if r is not None:
+        return r
+    if len(_WF) > 4000:
+        _WF.clear()
+    ga = _E["Anchors"].get_node_anchor
+    enc = docenc.Encoder()
+    enc.node(data)
+    # (1) same object => same encoded tree
+    sigs = {}
+    same = True
+    occs = ([(data, False)] if ga(data) else []) + _inner_occs(data)
+    for x, as_key in occs:
+        sg = enc.leaf(x) if (as_key or not (is_map(x) or is_seq(x) or is_set(x))) else enc.node(x)
+        if sigs.setdefault(id(x), sg) != sg:
+            same = False
+    # (2) keys and set members are leaves of the encoded tree
+    def keys_leaf(sx):
+        kind = sx[0]
+        if kind == "M":
+            return all(k[0] == "L" and keys_leaf(v) for k, v in sx[5])
+        if kind == "S":
+            return all(keys_leaf(e) for e in sx[5])
+        if kind == "T":
+            return all(e[0] == "L" for e in sx[5])
+        return True
+    kl = keys_leaf(docenc.sexp_parse(enc.node(data)))
+    # (3) merged-in entries hold objects met before
+    seen = set()
+    closed = [True]
+
+    def walk(x):
+        if is_map(x):
+            ok = getattr(x, "_ok", None)
+            has_merge = ok is not None and bool(getattr(x, "merge", None))
+            for k, v in x.items():
+                if has_merge and k not in ok:
+                    ent = ([k] if ga(k) else []) + ([v] if ga(v) else []) + [y for y, _ in _inner_occs(v)]
+                    if any(id(y) not in seen for y in ent):
+                        closed[0] = False
+                if ga(k):
+                    seen.add(id(k))
+                if ga(v):
+                    seen.add(id(v))
+                walk(v)
+        elif is_seq(x):
+            for e in x:
+                if ga(e):
+                    seen.add(id(e))
+                walk(e)
+        elif is_set(x):
+            for m in x:
+                if ga(m):
+                    seen.add(id(m))
+    walk(data)
+    r = (same, kl, closed[0])
+    _WF[text] = r
+    return r
 
 
 # ------------------------------------------------------------------ the judge
@@ -799,6 +899,9 @@ def judge(case, obs):
         return None
     if is_print(case):
         return print_judge(case)
+    if len(obs) > 1 and obs[1].startswith("(ok (") and not obs[1].startswith("(ok (true true "):
+        return ("assumption broken: the document well-formedness doc_wf (same object = same tree, scalar keys) "
+                "fails on a loaded document: %s" % obs[1])
     d = discrepancies(case)
     if not d:
         return None
@@ -834,6 +937,8 @@ def classify(case, obs):
     fam = "anch" if ("&" in text or "*" in text) else "plain"
     if "<<" in text:
         fam = "merge"
+    if len(obs) > 1 and obs[1].endswith(" false))"):
+        fam += "-inlinemerge"       # merged_closed false: a merge source that first defines an anchor
     mode = ("V" if o[0] else "") + ("K" if o[1] else "") + ("a" if o[2] else "") + \
            ("k" if o[3] else "") + ("v" if o[4] else "") + ("x" if o[5] else "")
     return "%s:%s:%s:%s" % (fam, sep, mode, k)
@@ -1207,5 +1312,10 @@ def corpus_chunks():
         ("{a: &x {k: v}, b: {<<: *x}}", "=x", "dot", (True, False, True, False, True, False)),
         ('[{1: [&w0 {"c d": b, "a.b": &w0 1.5}, *w0]}, [true, \'a b\'], 2]', "$1", "slash",
          (True, True, False, True, True, True)),                          # thorough-tier find
+        # merged_closed false (C07_inline_merge_refuted): the merge source is an inline mapping that first
+        # defines &v; the alias b is reported (the judge's reading takes a hidden merged-in entry out of the
+        # document and accepts it); and the same merge through an alias, where doc_wf holds
+        ("a: {<<: {k: &v hit}}\nb: *v\n", "=hit", "dot", a),
+        ("x: &m {k: &v hit}\na: {<<: *m}\nb: *v\n", "=hit", "dot", a),
     ]
     return [cases]
